@@ -403,6 +403,13 @@ func init() {
 	// status reports through the remote client, compared with in-process ones
 	addPlan("C18", planEntry{Engine: "A", Scenario: "member", Quick: 6, Thorough: 60})
 	addPlan("C18", planEntry{Engine: "A", Scenario: "general", Quick: 4, Thorough: 40})
+	// timers with the semantics of a main module below go 1.23 (see worker main)
+	addPlan("C15", planEntry{Engine: "A", Scenario: "general", Params: "oldtimers=1", Quick: 6, Thorough: 60})
+	addPlan("C15", planEntry{Engine: "A", Scenario: "election", Params: "oldtimers=1", Quick: 6, Thorough: 60})
+	addPlan("C17", planEntry{Engine: "A", Scenario: "election", Params: "oldtimers=1", Quick: 6, Thorough: 60})
+	addPlan("C17", planEntry{Engine: "A", Scenario: "member", Params: "oldtimers=1", Quick: 4, Thorough: 40})
+	addPlan("C16", planEntry{Engine: "A", Scenario: "transfer", Params: "oldtimers=1", Quick: 6, Thorough: 60})
+	addPlan("C01", planEntry{Engine: "A", Scenario: "election", Params: "oldtimers=1", Quick: 6, Thorough: 60})
 	addPlan("C10", planEntry{Engine: "B", Scenario: "crashenum", Params: "steps=110,passes=90", Quick: 5, Thorough: 60, Watchdog: 300e9})
 	for i := 0; i < 8; i++ {
 		addPlan("C05", planEntry{Engine: "B", Scenario: "votegrid", Params: fmt.Sprintf("shard=%d,shards=8", i), Quick: 1, Thorough: 3, Watchdog: 300e9})
